@@ -24,7 +24,7 @@ def gen_tree(rng, tensors, depth=0, allow_other=False):
         r = rng.random()
         if allow_other and r < 0.15:
             return ("name", "NOther")
-        if r < 0.6:
+        if r < 0.6 or not tensors:
             return ("name", rng.choice(ATOMS))
         return ("name", ("T", rng.choice(tensors)))
     op = rng.choice(["SInv", "SAnd", "SOr", "SSub", "SXor"])
